@@ -38,7 +38,10 @@ for p in props:
         'level_claimed': {'category': 'proof', 'text': m['level_text'], 'design_ref': m.get('design_ref', f'DESIGN.md section 5 {pid}')},
         'level_note': m['level_note'] + (' Bounded on top of the units (never counted as proved): the stand-ins named in the evidence file, among them the generic '
                                          'purity stand-in (caller\'s objects unchanged, second identical call equal, call on rebuilt inputs equal) over this property\'s API calls.'
-                                         if pid not in ('C01', 'C15', 'C16') else ''),
+                                         if pid not in ('C01', 'C15', 'C16') else '')
+                      + ' Plumbing (verif/props/plumbing.py): AST-level forwarding contracts of the public wrappers this property is reached through and shared-state frame conditions '
+                        '(no mutable defaults / class-level containers / module-level containers updated in place) are decided on the real source on every run; wrapper-vs-direct-call '
+                        'equivalences and the order test of two independent objects are bounded stand-ins.',
         'technique': m.get('technique', 'contract-based deductive verification: VCs generated from the real AST, discharged by z3/cvc5; native replay of counter-models; bounded stand-ins labelled'),
     })
 man = {
